@@ -741,6 +741,7 @@ pub fn run(run: &mut Run) -> Result<(), String> {
                     plan.raws.push((Box::new(EpUniverse::own_sliders()), b(1, 0)));
                 }
                 if prop == "C12" {
+                    plan.raws.push((Box::new(EpStale), b(0, 0)));
                     plan.raws.push((Box::new(CastleBox { max_items: 4 }), b(0, 0)));
                     plan.raws.push((Box::new(FourMen { kings: Some(cornered_king_placements()), with_flags: false }), b(0, 0)));
                     plan.raws.push((Box::new(DoubleCheck { kings: vec![4, 0], own_kinds: vec![Kind::P, Kind::N] }), b(0, 0)));
@@ -759,6 +760,8 @@ pub fn run(run: &mut Run) -> Result<(), String> {
                 plan.dfrc = Some((0..960, 1, b(0, 0)));
                 plan.lines = Some(b(3, 2));
                 plan.walk = Some((960, 60, 1, 7, b(1, 1)));
+                plan.raws.push((Box::new(EpStale), b(0, 0)));
+                plan.raws.push((Box::new(EpFile), b(0, 0)));
                 plan.raws.push((Box::new(EpUniverse::before_push(q)), b(1, 0)));
                 plan.raws.push((Box::new(CastleBox { max_items: 4 }), b(if prop == "C12" { 1 } else { 0 }, 0)));
                 plan.raws.push((Box::new(TwoLines { enemy_kings: vec![35, 60, 63] }), b(1, 0)));
@@ -786,6 +789,7 @@ pub fn run(run: &mut Run) -> Result<(), String> {
                 plan.mid = Some(b(1, 1));
                 plan.lines = Some(b(1, 1));
                 plan.walk = Some((60, 40, 4, 7, b(0, 0)));
+                plan.raws.push((Box::new(EpFile), b(0, 0)));
                 plan.raws.push((Box::new(ThreeMen { bk: Some(vec![63, 36]) }), b(0, 0)));
                 plan.raws.push((Box::new(EpUniverse::reduced()), b(0, 0)));
             } else {
@@ -795,6 +799,8 @@ pub fn run(run: &mut Run) -> Result<(), String> {
                 plan.lines = Some(b(2, 1));
                 plan.clock = Some(b(1, 0));
                 plan.walk = Some((480, 60, 2, 7, b(0, 0)));
+                plan.raws.push((Box::new(EpFile), b(0, 0)));
+                plan.raws.push((Box::new(EpStale), b(0, 0)));
                 plan.raws.push((Box::new(ThreeMen { bk: None }), b(0, 0)));
                 plan.raws.push((Box::new(FourMen { kings: Some(six_king_placements()), with_flags: true }), b(0, 0)));
                 plan.raws.push((Box::new(EpUniverse::full()), b(0, 0)));
